@@ -1,6 +1,8 @@
 // ===== CONTRACTS: WHO (C12, C04) =====
 // ASSUMED (status A): syntax validators over bytes (str::find / contains / as_bytes); only their verdicts matter here
 pub uninterp spec fn is_channel_name(s: Seq<char>) -> bool;
+//@assumed utils.rs validate_channel sha=8b098ab28df7 units=who
+//@assumed utils.rs validate_username sha=472fa1e6ccd3 units=who
 pub uninterp spec fn is_user_name(s: Seq<char>) -> bool;
 pub struct ValidationError { pub k: u8 }
 #[verifier::external_body]
@@ -36,13 +38,22 @@ impl MainState {
 //@end
 }
 
-// every 352 line appended names a user that is visible to the asker (in state s)
-pub open spec fn who_lines_visible(old_log: Seq<FedItem>, new_log: Seq<FedItem>, s: VolatileState, q: User) -> bool {
-    forall|k: int| old_log.len() <= k < new_log.len() - 1 ==>
-        exists|n: String| s.users@.contains_key(n) && user_visible_to(s.users@[n], q) && who_line_names(#[trigger] new_log[k], n@)
+// the users a WHO mask selects: with wildcards, those whose nickname, nick!user@host or real name the mask matches as a whole
+// (C14: the mask is the pattern, the user's text is the text); a channel name selects its members; a plain name that user
+pub open spec fn who_selects(mask: Seq<char>, s: VolatileState, n: String) -> bool {
+    if has_char(mask, '*') || has_char(mask, '?') { wild(mask, n@) || wild(mask, s.users@[n].source@) || wild(mask, s.users@[n].realname@) }
+    else if is_channel_name(mask) { member(s, n, string_of(mask)) }
+    else { n@ == mask }
+}
+pub open spec fn who_item_ok(item: FedItem, s: VolatileState, q: User, mask: Seq<char>) -> bool {
+    exists|n: String| s.users@.contains_key(n) && user_visible_to(s.users@[n], q) && who_selects(mask, s, n) && #[trigger] who_line_names(item, n@)
+}
+// every 352 line appended names a user that the mask selects and that is visible to the asker (in state s)
+pub open spec fn who_lines_visible(old_log: Seq<FedItem>, new_log: Seq<FedItem>, s: VolatileState, q: User, mask: Seq<char>) -> bool {
+    forall|k: int| old_log.len() <= k < new_log.len() - 1 ==> who_item_ok(#[trigger] new_log[k], s, q, mask)
 }
 impl MainState {
-//@fn state/rest_cmds.rs MainState::process_who unit=who props=C12,C04,C05 rules=R1,R2,R14,R20
+//@fn state/rest_cmds.rs MainState::process_who unit=who props=C12,C04,C05,C14 rules=R1,R2,R14,R20
 //@spec
         requires state_wf(*old(state)), conn_ok(*old(conn_state), *old(state)),
         ensures
@@ -51,7 +62,7 @@ impl MainState {
             log_extends(old(conn_state).stream.log(), final(conn_state).stream.log()), // @prop C12
             final(conn_state).stream.log().len() >= old(conn_state).stream.log().len() + 1, // @prop C12
             // nobody invisible to the asker is revealed
-            r is Ok ==> who_lines_visible(old(conn_state).stream.log(), final(conn_state).stream.log(), *old(state), old(state).users@[my_nick(*old(conn_state))]), // @prop C12
+            r is Ok ==> who_lines_visible(old(conn_state).stream.log(), final(conn_state).stream.log(), *old(state), old(state).users@[my_nick(*old(conn_state))], mask@), // @prop C12,C14,C04
             // existence clause: a secret channel the asker is not on is answered exactly like a channel that does not exist
             !has_char(mask@, '*') && !has_char(mask@, '?') && is_channel_name(mask@) && (!old(state).channels@.contains_key(sk(mask)) // @prop C12
                     || !chan_visible_to(old(state).channels@[sk(mask)], my_nick(*old(conn_state)))) ==>
@@ -64,10 +75,11 @@ impl MainState {
         let ghost me = my_nick(*conn_state);
 //@loop ~for \(unick, u\) in state\.users\.iter\(\) iter=it1
                 invariant
+                    has_char(mask@, '*') || has_char(mask@, '?'),
                     conn_same_but_stream(*conn_state, *old(conn_state)), *state == s0, state_wf(s0), s0.users@.contains_key(me), *user == s0.users@[me],
                     log_extends(log0, conn_state.stream.log()), log0 == old(conn_state).stream.log(),
                     forall|k: int| log0.len() <= k < conn_state.stream.log().len() ==>
-                        exists|n: String| s0.users@.contains_key(n) && user_visible_to(s0.users@[n], *user) && who_line_names(#[trigger] conn_state.stream.log()[k], n@),
+                        who_item_ok(#[trigger] conn_state.stream.log()[k], s0, *user, mask@),
                     forall|i: int| 0 <= i < it1.seq().len() ==> s0.users@.contains_key(*(#[trigger] it1.seq()[i]).0) && s0.users@[*it1.seq()[i].0] == *it1.seq()[i].1,
 //@after ~for \(unick, u\) in state\.users\.iter\(\)
                 broadcast use group_hash_axioms, bridge, ax_fed_reply;
@@ -77,18 +89,19 @@ impl MainState {
                 proof {
                     let lg2 = conn_state.stream.log();
                     assert forall|k: int| log0.len() <= k < lg2.len() implies
-                        exists|n: String| s0.users@.contains_key(n) && user_visible_to(s0.users@[n], *user) && who_line_names(#[trigger] lg2[k], n@) by {
+                        who_item_ok(#[trigger] lg2[k], s0, *user, mask@) by {
                         if k < lg1.len() { assert(lg2[k] == lg1[k]); }
-                        else { assert(who_line_names(lg2[k], unick@)); assert(s0.users@.contains_key(*unick) && user_visible_to(s0.users@[*unick], *user)); }
+                        else { assert(who_line_names(lg2[k], unick@)); assert(s0.users@.contains_key(*unick) && user_visible_to(s0.users@[*unick], *user)); assert(who_selects(mask@, s0, *unick)); } // @prop C14,C12
                     }
                 }
 //@loop ~for \(u, chum\) in channel\.users\.iter\(\) iter=it2
                         invariant
+                            !has_char(mask@, '*') && !has_char(mask@, '?') && is_channel_name(mask@),
                             conn_same_but_stream(*conn_state, *old(conn_state)), *state == s0, state_wf(s0), s0.users@.contains_key(me), *user == s0.users@[me],
                             s0.channels@.contains_key(sk(mask)), *channel == s0.channels@[sk(mask)],
                             log_extends(log0, conn_state.stream.log()), log0 == old(conn_state).stream.log(),
                             forall|k: int| log0.len() <= k < conn_state.stream.log().len() ==>
-                                exists|n: String| s0.users@.contains_key(n) && user_visible_to(s0.users@[n], *user) && who_line_names(#[trigger] conn_state.stream.log()[k], n@),
+                                who_item_ok(#[trigger] conn_state.stream.log()[k], s0, *user, mask@),
                             forall|i: int| 0 <= i < it2.seq().len() ==> channel.users@.contains_key(*(#[trigger] it2.seq()[i]).0),
 //@after ~for \(u, chum\) in channel\.users\.iter\(\)
                         broadcast use group_hash_axioms, bridge, ax_fed_reply;
@@ -102,9 +115,9 @@ impl MainState {
                         proof {
                             let lg2 = conn_state.stream.log();
                             assert forall|k: int| log0.len() <= k < lg2.len() implies
-                                exists|n: String| s0.users@.contains_key(n) && user_visible_to(s0.users@[n], *user) && who_line_names(#[trigger] lg2[k], n@) by {
+                                who_item_ok(#[trigger] lg2[k], s0, *user, mask@) by {
                                 if k < lg1.len() { assert(lg2[k] == lg1[k]); }
-                                else { assert(who_line_names(lg2[k], u@)); assert(s0.users@.contains_key(*u) && user_visible_to(s0.users@[*u], *user)); }
+                                else { assert(who_line_names(lg2[k], u@)); assert(s0.users@.contains_key(*u) && user_visible_to(s0.users@[*u], *user)); assert(sk(mask) == string_of(mask@)); assert(who_selects(mask@, s0, *u)); } // @prop C04,C12
                             }
                         }
 //@end
